@@ -1,7 +1,7 @@
 #!/bin/sh
 # tools/try_mutant.sh <patch.diff> <Cnn> [tier] : apply a seeded change to /repo, run the check, undo.
 # Holds build/repo.lock exclusively so that concurrently running checks never see the changed tree.
-patch="$1"; prop="$2"; tier="${3:-quick}"
+patch="$(realpath "$1")"; prop="$2"; tier="${3:-quick}"
 cd "$(dirname "$0")/.."
 mkdir -p build
 exec 9>build/repo.lock
